@@ -4,8 +4,8 @@
    Same invariant as Proofs/TraverseBindLaidBase.v, transported to the variables of Model/Usage.v. *)
 From Coq Require Import List NArith ZArith Bool Lia.
 From LH Require Import Base.Bytes Model.Lexer Model.Ast Spec.LuaUsage Model.Usage Proofs.UsageBindRun
-  Proofs.UsageBindSim Proofs.TraverseBindLaidBase.
-From LH Require Model.Scope Spec.LuaScope Proofs.TraverseBindDefs Proofs.TraverseBindLaidLoops.
+  Proofs.UsageBindSim Proofs.UsageBind Proofs.TraverseBindLaidBase.
+From LH Require Model.Scope Spec.LuaScope Proofs.TraverseBindDefs Proofs.TraverseBindLaidLoops Proofs.TraverseBindLaidMain.
 Import ListNotations.
 Local Open Scope Z_scope.
 
@@ -252,13 +252,14 @@ Section ULaid.
     PieceEA (a1 ++ [AWrite n l flv slv (Some e)]) a b.
   Proof.
     intros H1 Hid Ha Hm Hmb Hbb Hreg Hra Hrb st Hn Hg.
-    destruct (H1 st Hn (G_sub W _ _ _ _ _ Hg ltac:(pose proof (idok_lt W _ Hid); lia) Hbb)) as [A1 A2].
+    pose proof (idok_lt W _ Hid) as Hlt.
+    assert (Lam : a <= m) by lia. assert (Lmb : m <= b) by lia.
+    destruct (H1 st Hn (G_sub W (tvs st) a b m b' Hg Lam Hbb)) as [A1 A2].
     assert (Hg2 : GU (stack_run a1 st) a m).
-    { apply (G_evo W _ _ m b' a m (G_sub W _ _ _ _ _ Hg (Z.le_refl a) ltac:(lia)) A2). right. lia. }
+    { apply (G_evo W _ _ m b' a m (G_sub W (tvs st) a b a m Hg (Z.le_refl a) Lmb) A2). right. lia. }
     destruct (PieceEA_write n l flv slv (Some e) a m ra rb Hid Ha Hm Hreg _ (Evo_ne _ _ _ _ A2 Hn) Hg2) as [B1 B2].
     rewrite clean_run_app, stack_run_app, A1, B1. split; [reflexivity|].
-    eapply Evo_trans; [exact (Evo_widen W _ _ _ _ _ _ A2 ltac:(pose proof (idok_lt W _ Hid); lia) Hbb)|
-                       exact (Evo_widen W _ _ _ _ _ _ B2 Hra Hrb)].
+    eapply Evo_trans; [exact (Evo_widen W m b' a b _ _ A2 Lam Hbb)|exact (Evo_widen W ra rb a b _ _ B2 Hra Hrb)].
   Qed.
 
   Definition ExpL (e : exp) : Prop :=
@@ -310,7 +311,7 @@ Section ULaid.
     - destruct ret as [es|].
       + destruct (chain_region W _ _ _ _ Hch) as [_ [H2 [H3 H4]]].
         eapply PieceEA_sub; [apply PieceEA_scope; exact (Hb Hf flv slv g _ _ H4)|exact H2|exact H3].
-      + cbn. apply PieceEA_scope. apply PieceSA_nil.
+      + exact (PieceEA_scope [] a c (PieceSA_nil a c)).
     - destruct (chain_region W _ _ _ _ Hch) as [_ [H2 [H3 H4]]].
       eapply PieceEA_sub; [apply PieceEA_scope; exact (Hb Hf flv slv g _ _ H4)|exact H2|exact H3].
   Qed.
@@ -429,4 +430,219 @@ Section ULaid.
         rewrite !clean_run_app, !stack_run_app, <- Est1, P1, R1. split; [reflexivity|].
         eapply EvoS_trans; [exact (EvoS_widen W _ _ _ _ _ _ Hs1 (Z.le_refl cA) L2)|exact R2].
   Qed.
+
+  Ltac bs H := repeat (apply andb_true_iff in H; let H' := fresh H in destruct H as [H H']).
+
+  Lemma PeL_atom e : (forall bp flv g, fst (tr_exp e bp flv g) = []) ->
+                     match e with EFunc _ _ _ _ _ _ _ _ => False | _ => True end -> PeL e.
+  Proof.
+    intros Ht Hk. split.
+    - intros _ bp flv g a b _. rewrite Ht. apply PieceEA_nil.
+    - destruct e; try exact I. contradiction.
+  Qed.
+  Lemma PeL_nofunc e : ExpL e -> match e with EFunc _ _ _ _ _ _ _ _ => False | _ => True end -> PeL e.
+  Proof. intros H Hk. split; [exact H|]. destruct e; try exact I. contradiction. Qed.
+
+  Theorem ulaid_all : (forall e, PeL e) /\ (forall s, StatL s) /\ (forall b, BlockL b).
+  Proof.
+    apply TraverseBindDefs.tb_ast_ind.
+    - intros; apply PeL_atom; auto.
+    - intros; apply PeL_atom; auto.
+    - intros; apply PeL_atom; auto.
+    - intros; apply PeL_atom; auto.
+    - intros; apply PeL_atom; auto.
+    - intros; apply PeL_atom; auto.
+    - intros; apply PeL_atom; auto.
+    - intros; apply PeL_atom; auto.
+    - (* EName *) intros n l. apply PeL_nofunc; [|exact I]. intros _ bp flv g a b Hch.
+      cbn [LS.m_exp] in Hch. rewrite <- (app_nil_r (LS.id_marks l)) in Hch.
+      destruct (chain_id W _ _ _ _ Hch) as [Hid [Ha Hb]]. cbn [chain] in Hb.
+      cbn [tr_exp fst]. exact (PieceEA_read n l flv _ _ a b Hid Ha Hb).
+    - (* EUnop *) intros o x l [IH _]. apply PeL_nofunc; [|exact I]. intros Hf bp flv g a b Hch.
+      cbn [tr_exp]. match goal with |- context [tr_exp x None flv ?g1] =>
+        pose proof (IH Hf None flv g1 a b Hch) as H; destruct (tr_exp x None flv g1) as [a0 g2] end. exact H.
+    - (* EBinop *) intros o x y l [IHx _] [IHy _]. apply PeL_nofunc; [|exact I]. intros Hf bp flv g a b Hch.
+      cbn [frag_exp] in Hf. bs Hf. cbn [LS.m_exp] in Hch. destruct (chain_app W _ _ _ _ Hch) as [c [C1 C2]].
+      cbn [tr_exp].
+      match goal with |- context [tr_exp x ?bp1 flv ?g1] => pose proof (IHx Hf bp1 flv g1 a c C1) as H1;
+        destruct (tr_exp x bp1 flv g1) as [a1 g3] end.
+      match goal with |- context [tr_exp y ?bp1 flv ?g1] => pose proof (IHy Hf0 bp1 flv g1 c b C2) as H2;
+        destruct (tr_exp y bp1 flv g1) as [a2 g4] end.
+      cbn [fst] in *. exact (PieceEA_app _ _ a c b (chain_le W _ _ _ C1) (chain_le W _ _ _ C2) H1 H2).
+    - (* EParens *) intros x l [IH _]. apply PeL_nofunc; [|exact I]. intros Hf bp flv g a b Hch.
+      cbn [tr_exp]. exact (IH Hf bp flv g a b Hch).
+    - intros p k l _ _. apply PeL_nofunc; [|exact I]. intros Hf; discriminate.
+    - (* ECall *) intros p name args l [IHp _] IHa. apply PeL_nofunc; [|exact I]. intros Hf bp flv g a b Hch.
+      destruct name; [discriminate|]. cbn [frag_exp] in Hf. bs Hf.
+      cbn [LS.m_exp] in Hch. rewrite app_assoc in Hch. destruct (chain_region W _ _ _ _ Hch) as [_ [H2 [H3 H4]]].
+      destruct (chain_app W _ _ _ _ H4) as [c [C1 C2]].
+      cbn [tr_exp]. pose proof (IHp Hf None flv g _ _ C1) as P1. destruct (tr_exp p None flv g) as [a1 g1].
+      pose proof (thread_exps_laid flv args g1 _ _ IHa Hf0 C2) as P2.
+      destruct (thread (fun x g0 => tr_exp x None flv g0) args g1) as [a2 g2]. cbn [fst] in *.
+      eapply PieceEA_sub; [exact (PieceEA_app _ _ _ c _ (chain_le W _ _ _ C1) (chain_le W _ _ _ C2) P1 P2)|exact H2|exact H3].
+    - intros ks vs l _ _. apply PeL_nofunc; [|exact I]. intros Hf; discriminate.
+    - (* EFunc *) intros c f ps pl bk l va co IHb.
+      assert (HF : ExpLF (EFunc c f ps pl bk l va co)).
+      { cbn [ExpLF]. intros Hf bp flv g a b Hch. destruct co; [discriminate|]. cbn [frag_exp] in Hf. bs Hf.
+        destruct (chain_app W _ _ _ _ Hch) as [c1 [C1 C2]].
+        assert (Hp : forall l0, In l0 pl -> idok W l0 /\ hi W l0 <= c1).
+        { intros l0 Hl0. destruct (chain_ids W _ _ _ C1 l0 Hl0) as [A1 [_ A3]]. auto. }
+        cbn [tr_exp]. pose proof (IHb ltac:(assumption) (flv + 1)%N 0%N g c1 b C2) as P2.
+        destruct (tr_block bk (flv + 1)%N 0%N g) as [a0 g1]. cbn [fst] in *.
+        pose proof (PieceSA_app _ _ a c1 b (chain_le W _ _ _ C1) (chain_le W _ _ _ C2) (PieceSA_adds ps pl a c1 Hp) P2) as H.
+        pose proof (PieceEA_scope _ a b H) as H'. rewrite <- app_assoc in H'. exact H'. }
+      split; [|exact HF]. intros Hf bp flv g a b Hch.
+      cbn [LS.m_exp] in Hch. rewrite app_assoc in Hch. destruct (chain_region W _ _ _ _ Hch) as [_ [H2 [H3 H4]]].
+      eapply PieceEA_sub; [exact (HF Hf bp flv g _ _ H4)|exact H2|exact H3].
+    - (* SBreak *) intros _ flv slv g a b _. apply PieceSA_nil.
+    - intros n l Hf; discriminate.
+    - intros n l Hf; discriminate.
+    - (* SDo *) intros bk l IHb Hf flv slv g a b Hch. cbn [frag_stat LS.m_stat] in *.
+      destruct (chain_region W _ _ _ _ Hch) as [_ [H2 [H3 H4]]].
+      cbn [tr_stat]. pose proof (IHb Hf flv (slv + 1)%N g _ _ H4) as P. destruct (tr_block bk flv (slv + 1)%N g) as [a0 g1].
+      cbn [fst] in *. apply PieceSA_of_E. eapply PieceEA_sub; [exact (PieceEA_scope _ _ _ P)|exact H2|exact H3].
+    - (* SCall *) intros e [IHe _] Hf flv slv g a b Hch. cbn [frag_stat LS.m_stat tr_stat] in *.
+      apply PieceSA_of_E. exact (IHe Hf None flv g a b Hch).
+    - (* SIf *) intros es bs l IHe IHb Hf flv slv g a b Hch. rewrite LL.m_stat_if in Hch.
+      cbn [frag_stat] in Hf. bs Hf. cbn [tr_stat]. apply PieceSA_of_E.
+      exact (alt_thread_laid flv slv es bs g a b IHe IHb Hf1 Hf0 Hch).
+    - (* SWhile *) intros e bk l [IHe _] IHb Hf flv slv g a b Hch. cbn [frag_stat LS.m_stat] in *. bs Hf.
+      rewrite app_assoc in Hch. destruct (chain_region W _ _ _ _ Hch) as [_ [H2 [H3 H4]]].
+      destruct (chain_app W _ _ _ _ H4) as [c [C1 C2]].
+      cbn [tr_stat]. pose proof (IHe Hf None flv g _ _ C1) as P1. destruct (tr_exp e None flv g) as [a1 g1].
+      pose proof (IHb Hf0 flv (slv + 1)%N g1 _ _ C2) as P2. destruct (tr_block bk flv (slv + 1)%N g1) as [a2 g2].
+      cbn [fst] in *. apply PieceSA_of_E. eapply PieceEA_sub; [|exact H2|exact H3].
+      exact (PieceEA_app _ _ _ c _ (chain_le W _ _ _ C1) (chain_le W _ _ _ C2) P1 (PieceEA_scope _ _ _ P2)).
+    - (* SRepeat *) intros bk e l IHb [IHe _] Hf flv slv g a b Hch. cbn [frag_stat LS.m_stat] in *. bs Hf.
+      rewrite app_assoc in Hch. destruct (chain_region W _ _ _ _ Hch) as [_ [H2 [H3 H4]]].
+      destruct (chain_app W _ _ _ _ H4) as [c [C1 C2]].
+      cbn [tr_stat]. pose proof (IHb Hf flv (slv + 1)%N g _ _ C1) as P1. destruct (tr_block bk flv (slv + 1)%N g) as [a1 g1].
+      pose proof (IHe Hf0 None flv g1 _ _ C2) as P2. destruct (tr_exp e None flv g1) as [a2 g2].
+      cbn [fst] in *. apply PieceSA_of_E. eapply PieceEA_sub; [|exact H2|exact H3].
+      pose proof (PieceEA_scope _ _ _ (PieceSA_app _ _ _ c _ (chain_le W _ _ _ C1) (chain_le W _ _ _ C2) P1 (PieceSA_of_E _ _ _ P2))) as H.
+      rewrite <- app_assoc in H. exact H.
+    - (* SForNum *) intros n vl e1 e2 e3 bk l [IH1 _] [IH2 _] [IH3 _] IHb Hf flv slv g a b Hch.
+      cbn [frag_stat LS.m_stat] in *. bs Hf.
+      rewrite !app_assoc in Hch. destruct (chain_region W _ _ _ _ Hch) as [_ [H2 [H3 H4]]].
+      rewrite <- !app_assoc in H4. destruct (chain_id W _ _ _ _ H4) as [Hid [Ha Hr]].
+      pose proof (idok_lt W _ Hid) as Hlt.
+      destruct (chain_app W _ _ _ _ Hr) as [c1 [C1 R1]]. destruct (chain_app W _ _ _ _ R1) as [c2 [C2 R2]].
+      destruct (chain_app W _ _ _ _ R2) as [c3 [C3 C4]].
+      pose proof (chain_le W _ _ _ C1) as L1. pose proof (chain_le W _ _ _ C2) as L2.
+      pose proof (chain_le W _ _ _ C3) as L3. pose proof (chain_le W _ _ _ C4) as L4.
+      cbn [tr_stat].
+      pose proof (IH1 ltac:(assumption) None flv g _ _ C1) as P1. destruct (tr_exp e1 None flv g) as [a1 g1].
+      pose proof (IH3 ltac:(assumption) None flv g1 _ _ C3) as P3. destruct (tr_exp e3 None flv g1) as [a3 g2].
+      pose proof (IH2 ltac:(assumption) None flv g2 _ _ C2) as P2. destruct (tr_exp e2 None flv g2) as [a2 g3].
+      pose proof (IHb ltac:(assumption) flv (slv + 1)%N g3 _ _ C4) as P4. destruct (tr_block bk flv (slv + 1)%N g3) as [a4 g4].
+      cbn [fst] in *.
+      assert (L13 : c1 <= c3) by lia.
+      pose proof (PieceEA_app _ _ (hi W vl) c1 c3 L1 L13 P1 (PieceEA_swap _ _ c1 c2 c3 L2 L3 P3 P2)) as P132.
+      assert (Hb : Born W c3 c3 (to_v (param_var n vl))).
+      { unfold to_v, param_var. cbn [v_name v_loc v_refer v_empty]. apply (LL.Born_of_InReg W); [exact Hid|lia|exact I]. }
+      pose proof (PieceSA_app _ _ (hi W vl) c3 c3 ltac:(lia) (Z.le_refl c3) (PieceSA_of_E _ _ _ P132) (PieceSA_add _ c3 c3 Hb)) as P5.
+      pose proof (PieceSA_app _ _ (hi W vl) c3 (hi W l) ltac:(lia) L4 P5 P4) as H.
+      apply PieceSA_of_E. eapply PieceEA_sub; [|exact H2|exact H3].
+      eapply PieceEA_sub; [|exact (Z.le_trans _ _ _ Ha (Z.lt_le_incl _ _ Hlt))|apply Z.le_refl].
+      pose proof (PieceEA_scope _ _ _ H) as H'. rewrite <- !app_assoc in H'. cbn [app] in H'. exact H'.
+    - (* SForIn *) intros ns ls es bk l IHe IHb Hf flv slv g a b Hch. cbn [frag_stat LS.m_stat] in *. bs Hf.
+      rewrite !app_assoc in Hch. destruct (chain_region W _ _ _ _ Hch) as [_ [H2 [H3 H4]]].
+      rewrite <- !app_assoc in H4.
+      destruct (chain_app W _ _ _ _ H4) as [c1 [C1 R1]]. destruct (chain_app W _ _ _ _ R1) as [c2 [C2 C3]].
+      pose proof (chain_le W _ _ _ C1) as L1. pose proof (chain_le W _ _ _ C2) as L2. pose proof (chain_le W _ _ _ C3) as L3.
+      cbn [tr_stat].
+      pose proof (thread_exps_laid flv es g c1 c2 IHe ltac:(assumption) C2) as P1.
+      destruct (thread (fun x g0 => tr_exp x None flv g0) es g) as [a1 g1].
+      pose proof (IHb ltac:(assumption) flv (slv + 1)%N g1 _ _ C3) as P3. destruct (tr_block bk flv (slv + 1)%N g1) as [a2 g2].
+      cbn [fst] in *.
+      assert (Hp : forall l0, In l0 ls -> idok W l0 /\ hi W l0 <= c2).
+      { intros l0 Hl0. destruct (chain_ids W _ _ _ C1 l0 Hl0) as [A1 [_ A3]]. split; [exact A1|lia]. }
+      pose proof (PieceSA_app _ _ c1 c2 c2 L2 (Z.le_refl c2) (PieceSA_of_E _ _ _ P1) (PieceSA_adds ns ls c2 c2 Hp)) as P12.
+      pose proof (PieceSA_app _ _ c1 c2 (hi W l) L2 L3 P12 P3) as H.
+      apply PieceSA_of_E. eapply PieceEA_sub; [|exact H2|exact H3].
+      eapply PieceEA_sub; [|exact L1|apply Z.le_refl].
+      pose proof (PieceEA_scope _ _ _ H) as H'. rewrite <- !app_assoc in H'. exact H'.
+    - (* SAssign *) intros vars es l IHv IHe Hf flv slv g a b Hch.
+      destruct vars as [|v vars']; try discriminate Hf. destruct v; try discriminate Hf.
+      destruct vars' as [|v2 vars']; try discriminate Hf.
+      destruct es as [|e es']; try discriminate Hf. destruct es' as [|e2 es']; try discriminate Hf.
+      cbn [frag_stat] in Hf. apply andb_true_iff in Hf. destruct Hf as [_ Hfe].
+      pose proof (Forall_inv IHe) as [He HeF].
+      cbn [tr_stat map assign_thread tl thread fst snd].
+      apply PieceSA_of_E.
+      (* which form of marks *)
+      assert (Hcase : (exists c f0 fn ps pls bk fl va co, e = EFunc c (f0 :: fn) ps pls bk fl va co)
+                      \/ LS.m_stat (SAssign [EName n l0] [e] l) = LS.id_marks l0 ++ LS.m_exp e).
+      { destruct e as [?|?|?|?|?|? ?|? ?|? ?|? ? ?|? ? ? ?|? ? ?|cls fname pars parlocs bk0 fl0 va0 co0|? ?|? ?|? ? ?|? ? ? ?];
+          try (right; cbn; rewrite ?app_nil_r; reflexivity).
+        destruct fname as [|f0 fn]; [right; cbn; rewrite ?app_nil_r; reflexivity|]. left. do 9 eexists. reflexivity. }
+      destruct Hcase as [[c [f0 [fn [ps [pls [bk [fl [va [co ->]]]]]]]]]|Hm].
+      + cbn [LS.m_stat] in Hch. cbn [ExpLF] in HeF.
+        rewrite !app_assoc in Hch. destruct (chain_region W _ _ _ _ Hch) as [Hc [H2 [H3 H4]]].
+        rewrite <- !app_assoc in H4. destruct (chain_id W _ _ _ _ H4) as [Hid [Ha Hr]].
+        pose proof (idok_lt W _ Hid) as Hlt. pose proof (chain_le W _ _ _ Hr) as Hle.
+        match goal with |- context [tr_exp ?ee None flv ?g0] =>
+          pose proof (HeF Hfe None flv g0 (hi W l0) (hi W fl) Hr) as P1; destruct (tr_exp ee None flv g0) as [a1 g1] end.
+        cbn [fst snd] in *. rewrite !app_nil_r.
+        apply (PieceEA_then_write a1 n l0 flv slv _ a (hi W l0) (hi W fl) (lo W fl) (hi W fl) b P1 Hid); try lia.
+        cbn [S.ref_of_exp InReg]. repeat split; try apply Hc; lia.
+      + rewrite Hm in Hch. destruct (chain_id W _ _ _ _ Hch) as [Hid [Ha Hr]].
+        pose proof (idok_lt W _ Hid) as Hlt. pose proof (chain_le W _ _ _ Hr) as Hle.
+        match goal with |- context [tr_exp e None flv ?g0] =>
+          pose proof (He Hfe None flv g0 (hi W l0) b Hr) as P1; destruct (tr_exp e None flv g0) as [a1 g1] end.
+        cbn [fst snd] in *. rewrite !app_nil_r.
+        apply (PieceEA_then_write a1 n l0 flv slv e a (hi W l0) b (hi W l0) b b P1 Hid); try lia.
+        exact (LL.region_of_exp W e _ _ Hr).
+    - (* SLocal *) intros ns ls ats es l IHe Hf flv slv g a b Hch. cbn [frag_stat LS.m_stat] in *. bs Hf.
+      destruct (chain_app W _ _ _ _ Hch) as [c0 [C1 C2]].
+      pose proof (chain_le W _ _ _ C1) as L1. pose proof (chain_le W _ _ _ C2) as L2.
+      rewrite tr_stat_local. intros st Hn Hg.
+      destruct (local_go_laid flv es ns ls ats g c0 c0 b st IHe ltac:(assumption) C2) as [P1 P2]; auto.
+      + intros l0 Hl0. destruct (chain_ids W _ _ _ C1 l0 Hl0) as [A1 [_ A3]]. auto.
+      + apply Z.le_refl.
+      + exact (G_sub W _ _ _ _ _ Hg L1 (Z.le_refl b)).
+      + split; [exact P1|]. exact (EvoS_widen W _ _ _ _ _ _ P2 L1 (Z.le_refl b)).
+    - (* SLocalFunc *) intros n nl f l [_ IHf] Hf flv slv g a b Hch. cbn [frag_stat] in Hf. bs Hf.
+      destruct f; try discriminate. cbn [ExpLF LS.m_stat] in *.
+      rewrite !app_assoc in Hch. destruct (chain_region W _ _ _ _ Hch) as [Hc [H2 [H3 H4]]].
+      rewrite <- !app_assoc in H4. destruct (chain_id W _ _ _ _ H4) as [Hid [Ha Hr]].
+      pose proof (idok_lt W _ Hid) as Hlt. pose proof (chain_le W _ _ _ Hr) as Hle.
+      cbn [tr_stat].
+      match goal with |- context [tr_exp ?ee None flv g] =>
+        pose proof (IHf ltac:(assumption) None flv g (hi W nl) (hi W l0) Hr) as P1; destruct (tr_exp ee None flv g) as [a1 g1] end.
+      cbn [fst] in *.
+      assert (Hb : Born W a (hi W nl) (to_v (mkVar n nl false false true (Some (EFunc cls fname pars parlocs b0 l0 vararg colon)) false []))).
+      { pose proof Hid as [_ [_ [Hcc _]]]. unfold Born, to_v. cbn [S.v_loc S.v_ref v_loc v_refer S.ref_of_exp]. repeat split; try lia.
+        left. apply (contains_ok W HW); [exact Hc|exact Hid|exact Ha|lia]. }
+      change (AAdd ?v :: a1) with ([AAdd v] ++ a1).
+      eapply PieceSA_sub; [|apply Z.le_refl|exact H3].
+      exact (PieceSA_app _ _ a (hi W nl) (hi W l0) ltac:(lia) Hle (PieceSA_add _ a (hi W nl) Hb) (PieceSA_of_E _ _ _ P1)).
+    - (* Block *) intros ss ret l IHs IHr Hf flv slv g a b Hch. cbn [frag_block LS.m_block] in *. bs Hf.
+      destruct (chain_app W _ _ _ _ Hch) as [c [C1 C2]].
+      pose proof (chain_le W _ _ _ C1) as L1. pose proof (chain_le W _ _ _ C2) as L2.
+      cbn [tr_block]. pose proof (thread_stats_laid flv slv ss g a c IHs Hf C1) as P1.
+      destruct (thread (fun s g0 => tr_stat s flv slv g0) ss g) as [a1 g1].
+      destruct ret as [es|].
+      + cbn [TraverseBindDefs.tb_ret] in IHr. pose proof (thread_exps_laid flv es g1 c b IHr Hf0 C2) as P2.
+        destruct (thread (fun x g0 => tr_exp x None flv g0) es g1) as [a2 g2]. cbn [fst] in *.
+        exact (PieceSA_app _ _ a c b L1 L2 P1 (PieceSA_of_E _ _ _ P2)).
+      + cbn [fst] in *. rewrite app_nil_r. eapply PieceSA_sub; [exact P1|apply Z.le_refl|exact L2].
+  Qed.
 End ULaid.
+
+(* ------------------------------------------------------------------ whole chunks *)
+Theorem usage_laid_pos_clean W b :
+  in_fragment b = true -> LS.laid_b W b = true -> pos_clean b = true.
+Proof.
+  intros Hf Hl. unfold LS.laid_b in Hl. apply andb_true_iff in Hl. destruct Hl as [Hl Hst].
+  apply andb_true_iff in Hl. destruct Hl as [HW Hok]. apply Z.ltb_lt in HW.
+  unfold LS.marks in *. destruct (TraverseBindLaidMain.steps_chain W _ _ Hok Hst) as [c Hb].
+  destruct Hb as [_ [_ Hb]]. destruct (chain_app W _ _ _ _ Hb) as [c1 [C1 _]].
+  destruct (ulaid_all W HW) as [_ [_ HB]].
+  unfold pos_clean, trace. pose proof (HB b Hf 0%N 0%N ign0 _ _ C1) as P.
+  destruct (tr_block b 0%N 0%N ign0) as [a g1]. cbn [fst] in *.
+  destruct (P [[]] ltac:(discriminate) ltac:(constructor; [constructor|constructor])) as [H1 _].
+  change (APush :: a ++ [APop]) with ([APush] ++ a ++ [APop]).
+  rewrite !clean_run_app. apply andb_true_iff. split; [reflexivity|].
+  apply andb_true_iff. split; [exact H1|reflexivity].
+Qed.
